@@ -13,7 +13,7 @@ RULE = ("caption sets of 1-3 languages x 0-8 captions with generated runs of ide
         "(start, end) at every position, nodes TEXT/BREAK/STYLE (some captions hold only blank text or no text node at all); (retime) rate_skew = k/64 with "
         "k in [1,256] (exact in binary floating point, compared exactly with Fraction "
         "arithmetic) or a float in (0,4] - arbitrary, or decimal (n/10, n/100, n/1000, 25/24, 1000/1001 ...) with times on the millisecond grid so that products land within an ulp of a whole number (tolerance 1e-3 us) - integer offsets of both "
-        "signs up to +-24h biased to the negated start times; (merge) reference run-merging on "
+        "signs up to +-24h biased to the negated start times; (merge; also once more after the merged lists grew in place) reference run-merging on "
         "the model, plus idempotence. Non-trivial: retime drops >=1 caption while keeping >=1 "
         "or uses skew != 1; merge input has a run of >=2 concurrent captions next to a "
         "non-concurrent one.")
@@ -98,7 +98,9 @@ def retime_strategy(tier):
                 # decimal skews (0.7, 1.1, 1.001, 25/24 ...): products with round times land
                 # within an ulp of a whole number
                 st.builds(lambda n, d: n / d, st.integers(1, 40), st.sampled_from([10, 10, 100, 1000])),
-                st.sampled_from([0.7, 1.1, 0.3, 1.001, 0.999, 25 / 24, 24 / 25, 1000 / 1001, 1001 / 1000])))
+                st.sampled_from([0.7, 1.1, 0.3, 1.001, 0.999, 25 / 24, 24 / 25, 1000 / 1001, 1001 / 1000]),
+                # a skew next to 1 is still a skew (1.8 us per hour at 5e-10)
+                st.sampled_from([1 + 5e-10, 1 - 5e-10, 1 + 2 ** -31, 1 - 2 ** -31, 1 + 1e-8, 1 + 2 ** -52])))
             if draw(st.booleans()):
                 # times on the millisecond grid
                 for l in s["langs"]:
@@ -185,7 +187,8 @@ def _strip(n):
 
 
 def merge_strategy(tier):
-    return _set_strategy().map(lambda s: {"set": s})
+    return st.tuples(_set_strategy(), st.sampled_from([0, 0, 2, 3]), st.booleans()).map(
+        lambda t: {"set": t[0], "grow": t[1], "retime_onto": t[2]})
 
 
 def ref_merge(cues):
@@ -224,6 +227,32 @@ def check_merge(case, rec):
         res2 = merge_concurrent_captions(res)
     second = model.dump(res2)
     require(_times_nodes(first) == _times_nodes(second), "merging twice differs from merging once")
+    # a merged set is an ordinary caption set: its lists may grow in place (or a caption may be
+    # retimed onto its neighbour) and be merged again
+    from pycaption import Caption, CaptionNode
+    grown = False
+    for lang in res2.get_languages():
+        caps = res2.get_captions(lang)
+        if case.get("grow") and len(caps) >= 1:
+            last = caps[-1]
+            t0, t1 = last.end + 1000000, last.end + 2000000
+            for k in range(case["grow"]):
+                caps.append(Caption(t0, t1, [CaptionNode.create_text(f"new{k}")]))
+            if len(caps) >= case["grow"] + 2 and case.get("retime_onto"):
+                caps[0].start, caps[0].end = caps[1].start, caps[1].end
+            grown = True
+    if grown:
+        before = model.dump(res2)
+        with must("merge_concurrent_captions (after the lists grew in place)"):
+            res3 = merge_concurrent_captions(res2)
+        for l in before["langs"]:
+            exp3 = ref_merge(l["cues"])
+            got3 = res3.get_captions(l["code"])
+            require(len(got3) == len(exp3),
+                    lambda: f"{l['code']}: after growing in place, merged into {len(got3)} captions, expected {len(exp3)}")
+            for g, e in zip(got3, exp3):
+                require((g.start, g.end) == (e["start"], e["end"]), "times after the third merge")
+        rec.label("merged-again-after-growing")
     rec.nontrivial(nontrivial)
     if nontrivial:
         rec.label("has-run")
